@@ -127,7 +127,7 @@ theorem set_lookup (c : CacheG T) (k v t : Nat) (h : c.Inv) (k' : Nat) :
   rw [expire_lookup]
   obtain ⟨_, _, h3⟩ := lruAdd_after_insert ts c k v h
   by_cases hx : k' ∈ List.map (fun x => x.fst) (ts (CacheG.lruAdd ts { c with data := ainsert c.data k v } k).1.timers
-      (if ahas c.data k then C12.Op.move k t else C12.Op.set k v t)).2
+      (C12.Op.set k v t)).2
   · simp [hx]
   · simp only [hx, if_false, false_or]
     rcases h3 with ⟨e1, e2⟩ | ⟨old, e1, e2, _⟩
@@ -203,12 +203,9 @@ theorem frame_run (ops : List COp) : ∀ (c : CacheG T), c.Inv → ∀ k,
 
 end
 
-/-- the timer table never fires at a `set`/`move` with at least one tick of delay -/
-theorem table_no_immediate_fire (tbl : C12.Spec.Table) (k v t : Nat) (b : Bool) (ht : 1 ≤ t) :
-    (C12.Spec.step tbl (if b then C12.Op.move k t else C12.Op.set k v t)).2 = [] := by
-  cases b
-  · simp [C12.Spec.step]
-  · have : ¬ t = 0 := by omega
-    simp [C12.Spec.step, this]
+/-- the timer table never fires at a `set` -/
+theorem table_no_immediate_fire (tbl : C12.Spec.Table) (k v t : Nat) :
+    (C12.Spec.step tbl (C12.Op.set k v t)).2 = [] := by
+  simp [C12.Spec.step]
 
 end GoZero.C16
